@@ -114,6 +114,8 @@ class Prop(object):
         # the same keys with their creation time held as a zone-aware datetime of another offset (same instant): the twin is the same key
         for ks in ('eddsa+ecdh', 'rsa', 'ecdsa+ecdh'):
             u.append(('forms', {'keyset': ks, 'created': 'offset'}))
+        # private keys written by another producer (reference encoder): identities a PGPy-made key never has
+        u.append(('foreign', {}))
         return u
 
     def run_case(self, check, case):
@@ -121,6 +123,8 @@ class Prop(object):
         r = Res()
         if check == 'forms':
             return self.c_forms(r, case)
+        if check == 'foreign':
+            return self.c_foreign(r, case)
         root = case['root']
         if 'hist' in case:
             self.check_state(r, H.replay(root, case['hist']), case['hist'], root)
@@ -152,6 +156,47 @@ class Prop(object):
             if kind not in kinds:
                 kinds.add(kind)
                 r.viol('state', {'kind': kind}, {'root': root, 'hist': list(hist)}, 'after %s on %s: %s' % (list(hist), root, detail))
+
+    def c_foreign(self, r, case):
+        """Private keys from another producer: several identities (not UTF-8, not NFC), attributes holding an image next to a private-use subpacket, such
+        a subpacket alone, two images, a 9 kB image under either length encoding; third-party certifications; two subkeys."""
+        import pgpy
+        from props.c14 import Prop as C14
+        writer = C14()
+        other_pub = K.pgpy_cert('ed25519b', uid='Other <o@example.org>')[0].pubkey
+        shapes = []
+        for uk in (None, 'image+private', 'private+image', 'private-only', 'two-images'):
+            for big in ((None,) if uk else (None, 2, 5)):
+                for prim in ('ed25519a', 'ecdsa_p256a'):
+                    shapes.append(dict(nuid=3, nsub=2, secret=True, uat=True, nself=1, third='true', revoke_uid=False, extras=('direct',), same_time=False, trust=False,
+                                       prim=prim, uat_kind=uk, bigimage=big, uid2=len(shapes) % 4))
+        for si, shape in enumerate(shapes):
+            if case.get('only') is not None and case['only'] != si:
+                continue
+            r.states += 1
+            probs = []
+            label = 'reference-made private key %r' % ({k: v for k, v in shape.items() if v},)
+            try:
+                blob, known = writer.write_key(shape)
+                raws = [K.raw(shape['prim'], K.T0)] + [K.raw(n, K.T0) for n in ['cv25519a', 'ecdsa_p256b']]
+                key = pgpy.PGPKey.from_blob(blob)[0]
+                r.transitions += check_public(key.pubkey, raws, other_pub, probs, label, H.key_view(bytes(key)))
+                # and the public twin of the key as the other producer wrote it (before PGPy re-serialised anything)
+                v0 = H.key_view(blob)
+                v1 = H.key_view(bytes(key.pubkey))
+                if sorted((k, d) for k, d, _ in v0['ids']) != sorted((k, d) for k, d, _ in v1['ids']):
+                    probs.append(('differs-from-private', '%s: the public twin does not carry the identities of the imported key octet for octet' % label))
+            except Exception as e:
+                import traceback
+                probs.append(('exception', '%s: %r %s' % (label, e, traceback.format_exc()[-300:])))
+            r.outcomes['foreign-ok' if not probs else 'foreign-violation'] += 1
+            kinds = set()
+            for kind, detail in probs:
+                if kind not in kinds:
+                    kinds.add(kind)
+                    r.viol('foreign', {'kind': kind, 'uat': shape.get('uat_kind') or 'image'}, dict(case, only=si), detail)
+        r.samples.append({'foreign_shapes': len(shapes)})
+        return r
 
     def c_forms(self, r, case):
         from pgpy.constants import SymmetricKeyAlgorithm, HashAlgorithm
